@@ -1470,6 +1470,8 @@ def check_make_output(r, rule):
         if is_call(t, "scipy.sparse.coo_matrix") or is_call(t, "scipy.sparse.coo_array"):
             state["coo"] += 1
             ok, why = _coo_ok(r, rule, nn, s, t, trip, seqs, seqs2, where)
+            if ok is None:
+                state["unreadable"] = True
             if ok:
                 return ("call", ("unbound", "COO"), (trip, seqs, seqs2), ())
         return t
@@ -1481,6 +1483,8 @@ def check_make_output(r, rule):
     eq = Equiv(modelled={"scipy.sparse.coo_matrix", "scipy.sparse.coo_array", "builtins.list", "builtins.type", "builtins.len"})
     # accept returning the list itself
     code = _triplets_leaf(code, trip)
+    if state.get("unreadable"):
+        return            # the COO construction is outside the idiom list (already recorded as 'cannot decide')
     check_equiv(r.rep, rule, q, "'triplets' returns the triplet list, 'coo_matrix' the COO matrix, anything else ('ndarray') its dense form", code, sp, where, eq=eq, key="dispatch")
     if not state["coo"]:
         raise AnalysisBroken(f"{q}: no coo_matrix construction found (anchor vanished)")
@@ -1508,6 +1512,7 @@ def _coo_ok(r, rule, nn, s, call, trip, seqs, seqs2, where):
         ok_parts = ks == [2, 1, 0]
         if None in ks:
             r.rep.require(False, f"{q}: the data / row / col arguments of coo_matrix are not per-triplet component lists of the idiom list ({show(data, 40)}, ...); cannot decide [{rule}]")
+            return None, ""
         else:
             r.rep.ob(rule, q, ok_parts, "matrix entry [r, q] = d for each triplet (q, r, d): data <- triplet[2], row <- triplet[1], col <- triplet[0]", where,
                      expected="data, row, col collect components 2, 1, 0 of every triplet, in order", found=f"components {ks}", key="coo components")
@@ -1653,6 +1658,10 @@ def check_validation(r, rule):
     for idx, nm in ((0, "seqs"), (7, "seqs2")):
         if idx < len(pnames):
             e = elem_assert(("param", pnames[idx]))
+            cont_ = ("param", pnames[idx])
+            if (e is None and any(any(x == cont_ for x in walk(strip_all(a_["cond"]))) and any(head(x) == "call" and head(strip(x[1])) == "glob" and strip(x[1])[1] in nn.P.functions for x in walk(strip_all(a_["cond"]))) for a_ in asserts)):
+                r.rep.require(False, f"{q}: an assertion mentions {nm} in a form outside the idiom list (per-element type test through a predicate); cannot decide [{rule}]")
+                continue
             r.rep.ob(rule, q, e is not None, f"non-string elements of {nm} are rejected", wh(r, q, e.node if e else s.func.node), expected="assert type(seq) in {str, np.str_} for every element",
                      found="present" if e else "missing", key=f"validate elements {nm}")
     # every engine validates first, slot by slot
@@ -1863,6 +1872,14 @@ def check_pool(r, rule):
                      expected="chunksize >= 1", found=f"{show(cs, 60)} has lower bound {lower_bound(nn, q, cs, facts) if cs is not None else '-'}", key="chunksize")
         # the iterable is enumerate(y_indices): task k carries position k
         it = c[2][1] if len(c[2]) > 1 else None
+        it0 = uncopy(it) if it is not None else None
+        # [(k, list(c)) for k, c in enumerate(y_indices)] : the same tasks, materialised
+        if it0 is not None and head(it0) == "comp" and len(it0[3]) == 1 and not it0[3][0][1] and head(strip(it0[2])) == "tuple" and len(strip(it0[2])[1]) == 2:
+            ce_ = it0[3][0][0]
+            a_, b_ = strip(it0[2])[1]
+            if strip(a_) == ("item", ce_, 0) and uncopy(b_) == ("item", ce_, 1):
+                it0 = strip(ce_[3])
+        it = it0 if it0 is not None else it
         ok_it = it is not None and is_call(it, "builtins.enumerate") and nn.R._role_of(q, strip(it)[2][0]) is None and strip(strip(it)[2][0]) == ("param", s.params[1][0])
         r.rep.ob(rule + "-ORD", q, ok_it, "task k is (k, candidates of sequence k)", wh(r, q, e.node), expected="enumerate(y_indices)", found=show(it, 50), key=f"tasks {meth}")
     # ---- BLK: writer / reader arity
@@ -2046,10 +2063,11 @@ def check_symdel_pairs(r, rule, cd_modes):
         w = wh(r, q, sites[0][1].node) if sites else wh(r, q, nn.summary(q).func.node)
         ok_pair = len(sites) == 2 and strip(sites[0][1].a) == strip(sites[1][1].b) and strip(sites[0][1].b) == strip(sites[1][1].a) and strip(sites[0][1].d) == strip(sites[1][1].d) \
             and sites[0][1].guards == sites[1][1].guards
+        if not sites:
+            rep.require(False, f"{q}: no triplet insertion found in the one-collection branch (moved out of reach of the site analysis); cannot decide [{rule}]")
+            continue
         rep.ob(rule, q, ok_pair, f"both orientations (i, j, d) and (j, i, d) are inserted under the same guards with the same value [{mname}]", w,
                expected="ans.add((i, j, dist)); ans.add((j, i, dist))", found=f"{len(sites)} insertion site(s)", key=f"orientations {mname}")
-        if not sites:
-            continue
         st = sites[0][1]
         verdict, found = pair_source_verdict(nn, q, st)
         if verdict is None:
